@@ -92,8 +92,8 @@ CLAIMS = {
              "offset) - the whole token sequence of the text follows with identical kinds, values and columns, every line one "
              "lower; (4) a splice of either form BETWEEN two lexemes of a file (C12_splice_between_lexemes, Proofs/SpliceBetween.v): "
              "for prefixes of simple lexemes, block comments, // comments and plain strings under the decidable lexs_ok2 (the "
-             "lexeme before the splice is complete) and the decidable realignment condition (the part after the splice, up to "
-             "its next newline lexeme, ends in the shifted state) the sequences of token kinds and values are equal, the later "
+             "lexeme before the splice is complete), whenever the part after the splice contains a newline lexeme "
+             "(C12_splice_between_lexemes_line; or under the decidable realignment condition otherwise), the sequences of token kinds and values are equal, the later "
              "items one line lower - with an Example on a program behind the repository's 42 header.  Not proved: splices next "
              "to other lexeme kinds (operators before the splice, character constants, multi-character operators), respelling "
              "composed into equality of whole token sequences, and the diagnostics clause - these are searched: "
@@ -187,7 +187,11 @@ CLAIMS = {
              "every run by the per-statement correspondence and by running the translated matcher on every recorded "
              "preprocessor statement; G4 (second guard, recognised by the translated matcher) and G5 (a declaration turn of an "
              "untranslated primary in front of the guard) are proved in the same form (C14_file_G4/G5_induced_partial), each "
-             "with an Example in which the tokenizer model is run.  Correspondence: the real statement sequence, "
+             "with an Example in which the tokenizer model is run; and accept, G1-G4, G6 are restated for the realistic layout `42 header, "
+             "blank line, #ifndef/#define ...` (C14_file_*_blank_partial): the blank-line turn is decided by the combined turn "
+             "function (IsComment + IsEmptyLine + the IsPreprocessorStatement matcher) under the one assumption that the four "
+             "untranslated primaries tried before IsEmptyLine decline a NEWLINE-first statement (compared on every recorded turn "
+             "by C13's check); a complete realistic header is evaluated end to end (C14_example_real_header).  Correspondence: the real statement sequence, "
              "preprocessor state and emitted codes after every statement vs the model run inside Coq on the abstracted trace.  "
              "Search: 42 header + guard + body x base names over [a-z0-9_.] x {correct, G1..G8} x placements on the implementation.",
         ref="DESIGN.md 4.14", technique="Rocq proof over a check translated from source + per-statement state correspondence + mutation search",
@@ -242,7 +246,7 @@ CLAIMS = {
              "and none for any non-header; the tokenizer model records no diagnostic on any statement line of unbounded length built "
              "from identifiers, single spaces, one-character operators, brackets and 118 listed atoms (constants of every family of "
              "Spec/CConst.v inside their guards, keywords, multi-character operators); all-Notice diagnostics give OK and all-OK "
-             "files give exit 0.  FOURTEEN of the 39 checks are proved silent AS A WHOLE on conforming statements, about functions "
+             "files give exit 0.  FIFTEEN of the 39 checks are proved silent AS A WHOLE on conforming statements, about functions "
              "regenerated from the source on every run, unbounded in the program (C01_checks_silent): CheckTernary, CheckLabel "
              "(hypothesis K: token kinds, tied to the rendered text by conforming_text_kinds), CheckLineLen, CheckManyInstructions "
              "(P: columns, from C09/C03), CheckSpacing, CheckExpressionStatement (statement shape at every position, by loop "
@@ -250,33 +254,33 @@ CLAIMS = {
              "the scope-trace model, history given), CheckFunctionsCount (trace model), CheckIdentifierName (names over the "
              "source's own legal-character string), CheckComment (no comment in the statement, or comments first on their "
              "line / followed by blanks only, outside functions), CheckLineCount (its only diagnostic is guarded by a parent "
-             "rule name that no primary of the regenerated registry has), CheckHeader, CheckPreprocessorProtection; five more "
-             "in part.  K1 (i = 0xb3ba;) is accepted since the repair (C01_accepted_K1).  "
-             "TESTED, not proved: the silence of the other 25 checks (listed in Props/C01.v and in the evidence) and the "
+             "rule name that no primary of the regenerated registry has), CheckPreprocessorIndent (on conforming directive "
+             "lines, from the exact-list theorem), CheckHeader, CheckPreprocessorProtection; five more in part.  K1 (i = 0xb3ba;) is accepted since the repair (C01_accepted_K1).  "
+             "TESTED, not proved: the silence of the other 24 checks (listed in Props/C01.v and in the evidence) and the "
              "complete-unit claim - generated conforming programs (one third on the 25/5/4/5/80 limits, one tenth through the real "
              "CLI alone and in every position of several-file invocations in both formats) with a measured construct histogram, "
              "and grids of the known false-positive families.",
         ref="DESIGN.md 4.1", technique="Rocq proof (composition of header, guard, lexer-line and verdict theorems over an emitter table from source) + conforming-program search",
-        note=NOTE + "Partial: 25 checks are only searched; which primaries matched (the history) is a hypothesis; programs are generated by the Python renderer, not a Coq AST."),
+        note=NOTE + "Partial: 24 checks are only searched; which primaries matched (the history) is a hypothesis; programs are generated by the Python renderer, not a Coq AST."),
     "C02": dict(
-        text="PARTIAL.  45 of the 84 catalogue operators have machine-checked theorems (S01-S08, S11, L01, W01, W03-W10, W12-W15, "
-             "W17, T01-T04, O07, N01, N02, K01-K03, D04, F03, F04, F05, P04-P06, P09-P12), stated for EVERY token list and context view over "
-             "Gallina functions regenerated statement by statement from the current source of 13 checks on every run (fail "
+        text="PARTIAL.  50 of the 84 catalogue operators have machine-checked theorems (S01-S08, S11, L01, W01, W03-W10, W12-W15, "
+             "W17, T01-T04, O07, N01, N02, K01-K03, D04, F03, F04, F05, P01-P12), stated for EVERY token list and context view over "
+             "Gallina functions regenerated statement by statement from the current source of 15 checks on every run (fail "
              "closed: CheckTernary, LineLen, Label, ManyInstructions, EmptyLine, LineIndent, Spacing, the FORBIDDEN_<type> slice "
-             "of UtypeDeclaration, ExpressionStatement, ControlStatement, IdentifierName, Comment, PreprocessorIndent - for the last one the EXACT list of "
-             "diagnostics is proved, C02_partial_preproc_indent_exact) and over the scope/counter "
+             "of UtypeDeclaration, ExpressionStatement, ControlStatement, IdentifierName, Comment, PreprocessorIndent, PreprocessorInclude, PreprocessorDefine - for the last three the EXACT "
+             "list of diagnostics is proved, C02_partial_preproc_*_exact) and over the scope/counter "
              "models of the four limits: the pattern the operator creates makes the translated check emit the expected code on "
              "that line (iff / exact-value forms where stated; _given_history / _given_trace where the history or the matching "
              "primary is a hypothesis); S05, L01, K03, F04 are lifted to files over the generic registry-loop model.  Every "
-             "recorded invocation of the 13 checks is replayed inside Coq (token window, history, scope fields, emissions, "
+             "recorded invocation of the 15 checks is replayed inside Coq (token window, history, scope fields, emissions, "
              "exception class) and the scope/counter traces are replayed on the limit programs and their one-past-the-limit "
-             "edits.  The other 39 operators (5 of them only as known findings) are TESTED: the property itself is evaluated "
+             "edits.  The other 34 operators (5 of them only as known findings) are TESTED: the property itself is evaluated "
              "on the implementation for conforming programs (incl. programs sitting on a limit and multi-dot file names) x all "
              "operators x structurally varied sites; the forbidden constructs (ternary, for, switch, goto, label) are placed "
              "at sites of every statement kind a primary can match.  Ten genuine misses are recorded with narrow site "
              "predicates; four proved operators (W01, W05, N01, N02) coexist with listed findings outside the model's hypotheses.",
-        ref="DESIGN.md 4.2", technique="Rocq proof over check bodies translated from source (45 operators) + invocation-level correspondence + catalogue search (84 operators)",
-        note=NOTE + "Partial: 39 operators tested only; primaries are an oracle at file level; exit status is C04's theorem."),
+        ref="DESIGN.md 4.2", technique="Rocq proof over check bodies translated from source (50 operators) + invocation-level correspondence + catalogue search (84 operators)",
+        note=NOTE + "Partial: 34 operators tested only; primaries are an oracle at file level; exit status is C04's theorem."),
     "C19": dict(
         text="PARTIAL.  Theorems: a prefix of complete lines shifts the true position of every raw offset by its number of lines at "
              "the same column (all prefixes, texts, offsets), hence corresponding tokens of src and P ++ src differ by exactly that "
@@ -336,7 +340,8 @@ CLAIMS = {
              "innermost frame.  (c) For the code whose model is regenerated from the source on every run (CheckTernary, CheckLineLen, CheckLabel, "
              "CheckManyInstructions, CheckEmptyLine, CheckLineIndent, CheckSpacing, CheckExpressionStatement, CheckControlStatement "
              "(Ok or Hang: the outcome theorem that predicted the check_nest loop), CheckIdentifierName, CheckPreprocessorIndent (ends normally or "
-             "raises AttributeError on a missing token, never anything else), the parameter counter of CheckFuncDeclaration "
+             "raises AttributeError on a missing token, never anything else), CheckPreprocessorInclude and CheckPreprocessorDefine (end normally, "
+             "raise AttributeError, or run on only when their unbounded scan has no closing token - fuel adequacy proved), the parameter counter of CheckFuncDeclaration "
              "with Context.skip_nest, CheckLineCount / CheckFunctionsCount / the variable counter, the scope bookkeeping of the "
              "registry loop) it is proved for EVERY token list and context that it ends normally under the invariants the "
              "registry guarantees (tokens not exhausted, matched primary already in the history, tkn_scope >= 0, scope chain "
